@@ -94,10 +94,12 @@ class CacheRoles:
                         self.cache_expr = v if not (isinstance(v, ast.Name) and v.id == self.cache_param) else None
                     if (isinstance(v, ast.Name) and v.id == self.func_param) and self.wrapped is None and self.cache != hp_:
                         self.wrapped = hp_
+        self.lock_candidates: List[str] = []
         for name, vals in assigns.items():
             for v in vals:
                 if isinstance(v, ast.Call) and ires.path(v.func) in ('threading.Lock', 'threading.RLock'):
                     self.lock = name
+                    self.lock_candidates.append(name)
                 names = {x.id for x in ast.walk(v) if isinstance(x, ast.Name)}
                 if self.cache_param in names and self.cache is None:
                     self.cache, self.cache_expr = name, v
@@ -186,6 +188,12 @@ class CacheRoles:
             for n in g.nodes:
                 if n.kind in ('loop_head', 'for_iter') and n.ast is outer:
                     self.HEAD = n
+        if len(getattr(self, 'lock_candidates', [])) > 1 and self.MARK:
+            # several locks in the closure (one may guard statistics): the creation lock is the one held where the marker is stored
+            held_c = held_locks(g, self.lock_candidates)
+            at_mark = [c for c in self.lock_candidates if any(c in held_c[m.id] for m in self.MARK)]
+            if at_mark:
+                self.lock = at_mark[0]
         self.held = held_locks(g, [self.lock])
 
     def _member_test(self, n: Node) -> Optional[bool]:
@@ -605,9 +613,19 @@ def c01(ctx: Ctx) -> None:
             touches = r.TABLE_TOUCH
             held = r.held
         else:
+            def _readonly_peek(n_: Node) -> bool:
+                """`len(T)`, `T.keys()` ... in a function other than the wrapper: a read for introspection, part of no decision"""
+                c_ = n_.ast
+                if n_.kind != 'call':
+                    return False
+                if isinstance(c_.func, ast.Name) and c_.func.id in ('len', 'bool', 'list', 'dict', 'tuple', 'sorted', 'set', 'frozenset') \
+                        and len(c_.args) == 1 and isinstance(c_.args[0], ast.Name) and c_.args[0].id == r.table:
+                    return True
+                return isinstance(c_.func, ast.Attribute) and isinstance(c_.func.value, ast.Name) and c_.func.value.id == r.table \
+                    and c_.func.attr in ('keys', 'values', 'items', 'copy', '__len__', '__contains__')
             touches = [n for n in sg.nodes if n.kind in ('load_sub', 'store_sub', 'del_sub', 'call')
                        and any(isinstance(x, ast.Name) and x.id == r.table and scope.binding_scope(x.id) is r.impl
-                               for x in ast.walk(n.ast)) and scope is not r.impl]
+                               for x in ast.walk(n.ast)) and scope is not r.impl and not _readonly_peek(n)]
             held = held_locks(sg, [r.lock])
         for n in touches:
             ctx.check('C01-R1', f'{n.kind} {norm(n.ast)}', sg.loc(n), r.lock in held[n.id],
@@ -1349,7 +1367,7 @@ def c14(ctx: Ctx) -> None:
     for n in g.nodes:
         if n.kind in ('store_sub', 'del_sub'):
             b = n.ast.value  # type: ignore[union-attr]
-            if n.kind == 'store_sub' and isinstance(n.ast.slice, ast.Constant):
+            if n.kind == 'store_sub' and isinstance(resolve(g, n, n.ast.slice), ast.Constant):
                 # a slot with a constant name (a statistics counter, a debug field) that does not receive the result
                 # or anything derived from the arguments is not a second result store
                 st_ = n.meta.get('stmt')
